@@ -645,6 +645,13 @@ func (s *Server) handleRequest(req *dhcpv4.DHCPv4) (*dhcpv4.DHCPv4, error) {
 		} else if !pool.Contains(requestedIP) {
 			atomic.AddUint64(&s.naksTotal, 1)
 			return s.buildNAK(req, "IP not in pool")
+		} else if !pool.IsAllocatedTo(mac, requestedIP) {
+			// A client without a lease may only confirm the address the pool
+			// holds for it (the one offered in DISCOVER). Anything else - in
+			// particular an address allocated to another client - is refused,
+			// otherwise two clients end up bound to the same address.
+			atomic.AddUint64(&s.naksTotal, 1)
+			return s.buildNAK(req, "IP not offered to this client")
 		}
 	}
 
